@@ -138,6 +138,7 @@ type TreeGen struct {
 	IndexOpts bool
 	Wraps     bool
 	MutexOpt  bool
+	Ambient   bool // neutral settings (identifier, category, aux, less, accepting closures, logger, mutex) on a random half of the nodes
 	FIFOOpt   bool
 	NilLeaves bool
 	EmptyStacks bool
@@ -193,6 +194,9 @@ func (st *treeState) stackOpts(t *rapid.T, n *Node) {
 	}
 	if g.FIFOOpt {
 		n.FIFO = rapid.IntRange(0, 2).Draw(t, "fifo") == 0
+	}
+	if g.Ambient {
+		n.Amb = drawAmbient(t, true)
 	}
 	if g.Wraps {
 		n.Wrap = rapid.IntRange(0, 6).Draw(t, "wrap")
